@@ -156,14 +156,40 @@ def multi_file_cases(ctx):
     return out
 
 
+def has_anon_map_value(s):
+    """an object schema with properties written inline as the value schema of a property-less object's additionalProperties becomes an anonymous
+    struct without unmarshaler (recorded finding C04-anonymous-struct-map-value, D25): the inlined form of such a reference is outside the guard"""
+    if isinstance(s, dict):
+        ap = s.get("additionalProperties")
+        if isinstance(ap, dict) and not s.get("properties") and (ap.get("properties") or ap.get("type") == "object" and isinstance(ap.get("additionalProperties"), dict)):
+            return True
+        return any(has_anon_map_value(v) for k, v in s.items() if k not in ("enum", "default"))
+    if isinstance(s, list):
+        return any(has_anon_map_value(v) for v in s)
+    return False
+
+
 def inline_item_constraint(ci, d):
     """is the document's fault a constraint of a primitive array item written inline (never enforced: D9)"""
     if d["cls"] not in ("string", "bound"):
         return False
     path = d["path"]
-    if not path or not isinstance(path[-1], int):
+    if not path:
         return False
-    return True
+    if isinstance(path[-1], int):
+        return True
+    # the same for the value schema of a property-less object's additionalProperties: an inline primitive map value keeps no validator
+    cur = ci.schema
+    for p in path[:-1]:
+        if not isinstance(cur, dict):
+            return False
+        if isinstance(p, int):
+            cur = cur.get("items", {})
+        elif p in cur.get("properties", {}):
+            cur = cur["properties"][p]
+        else:
+            cur = cur.get("additionalProperties", {})
+    return isinstance(cur, dict) and not cur.get("properties") and isinstance(cur.get("additionalProperties"), dict) and path[-1] not in cur.get("properties", {})
 
 
 def render(path, doc):
@@ -186,6 +212,8 @@ def run(ctx):
         try:
             inl = inline(sc, {"s.json": sc}, "s.json")
         except (ValueError, KeyError):
+            continue
+        if has_anon_map_value(inl):
             continue
         dg = Docs(inl, rng)
         docs = []
